@@ -33,6 +33,13 @@ pub fn filter_pattern_matches(pattern: &str, path: &Path) -> Result<bool, String
         .map_err(|err| err.to_string())
 }
 
+/// One pattern (compiled once) against many paths. `Err` carries the message of an invalid pattern.
+pub fn filter_pattern_matches_many(pattern: &str, paths: &[&Path]) -> Result<Vec<bool>, String> {
+    crate::utils::FilterPattern::new(pattern.to_owned())
+        .map(|filter| paths.iter().map(|path| filter.matches(path)).collect())
+        .map_err(|err| err.to_string())
+}
+
 pub fn find_require_paths(path: &Path, module_folder_name: &str) -> Vec<PathBuf> {
     crate::rules::require::find_require_paths_for_verif(path, module_folder_name)
 }
